@@ -577,7 +577,11 @@ def rule_store(repo, R):
                 if got[0] == "ok":
                     got = cases.call_method(getter, obj, [])
             except cases.Unmodelled as ex:
-                raise AnalysisError("STORE", f"the `{prop}` setter/getter uses a construct outside the case-analysis fragment: {ex}", where)
+                if "read before it is stored" in str(ex):
+                    # the setter returned without storing what the getter reads: the property is lost (AttributeError / stale value)
+                    got = ("raise", "AttributeError: " + str(ex))
+                else:
+                    raise AnalysisError("STORE", f"the `{prop}` setter/getter uses a construct outside the case-analysis fragment: {ex}", where)
             n += 1
             ok = got == want and (got[0] != "ok" or type(got[1]) is type(want[1]))
             R.check(ok, "STORE", site, f"{prop} = {arg!r}",
@@ -1038,9 +1042,63 @@ def rule_pyscf(repo, f, R):
             where=f.where(call), expected=coord_v, found=ast.unparse(cd))
     app = [c for c in calls_in(fn, attr="append") if any(n is call for n in ast.walk(c))]
     R.check(len(app) == 1, "PYSCF", f.site, "basis.append(shell)", "one shell appended per record, in order", where=f.where(call))
+    # coordinate type of every shell: Cartesian iff the molecule says so
+    ct = amap.get("coord_type")
+    k = 0
+    while isinstance(ct, ast.Name) and k < 4:
+        ct = D.single_assign(ct.id) or ct
+        k += 1
+        if not isinstance(ct, ast.Name):
+            break
+    okct = isinstance(ct, ast.IfExp) and ast.unparse(ct.test) in ("mol.cart", "bool(mol.cart)") and isinstance(ct.body, ast.Constant) \
+        and ct.body.value == "cartesian" and isinstance(ct.orelse, ast.Constant) and ct.orelse.value == "spherical"
+    if isinstance(ct, ast.IfExp) and ast.unparse(ct.test) in ("not mol.cart",):
+        okct = isinstance(ct.body, ast.Constant) and ct.body.value == "spherical" and isinstance(ct.orelse, ast.Constant) and ct.orelse.value == "cartesian"
+    R.check(okct, "PYSCF", f.site, "coord_type=" + (ast.unparse(ct)[:60] if ct is not None else "?"),
+            "the shells must be Cartesian exactly when `mol.cart` is set (spherical otherwise)", where=f.where(call),
+            expected="'cartesian' if mol.cart else 'spherical'", found=ast.unparse(ct)[:80] if ct is not None else None)
+    # the argument check must accept a Mole: raise iff not (class name == 'Mole' and has `_basis`)
+    guards = [st for st in fn.body if isinstance(st, ast.If) and st.body and isinstance(st.body[-1], ast.Raise) and "__class__" in ast.unparse(st.test)]
+    if guards:
+        from .. import cases
+        g0 = guards[0]
+
+        def outcome(clsname, has_basis):
+            mol = cases.Fake("other", **({"_basis": {}} if has_basis else {}))
+            mol.attrs["__class__"] = cases.Fake("other", __name__=clsname)
+            env = {"mol": mol}
+            try:
+                cases.run([g0], env)
+            except cases.Raised as r:
+                return "raise"
+            except cases.Unmodelled as ex:
+                raise AnalysisError("PYSCF", f"argument check of from_pyscf outside the case-analysis fragment: {ex}", f.where(g0))
+            return "pass"
+        for clsname, hb, want in (("Mole", True, "pass"), ("Mole", False, "raise"), ("IOData", True, "raise"), ("dict", False, "raise")):
+            got = outcome(clsname, hb)
+            R.check(got == want, "PYSCF", f.site, f"argument check for a {clsname} {'with' if hb else 'without'} _basis",
+                    f"from_pyscf must {'accept' if want == 'pass' else 'reject'} an object of class {clsname} {'with' if hb else 'without'} `_basis`; the check "
+                    f"{'raises' if got == 'raise' else 'lets it through'}", where=f.where(g0), expected=want, found=got)
+    # pyscf orders p functions x, y, z: the override of the spherical order applies to l = 1 and to nothing else
+    for cname, cnode in f.local_classes.items() if isinstance(f.local_classes, dict) else []:
+        pass
+    for node in ast.walk(fn):
+        if isinstance(node, ast.FunctionDef) and node.name == "angmom_components_sph":
+            ifs = [st for st in node.body if isinstance(st, ast.If)]
+            okp = len(ifs) == 1 and ast.unparse(ifs[0].test) in ("self.angmom == 1", "1 == self.angmom") and len(ifs[0].body) == 1 \
+                and isinstance(ifs[0].body[0], ast.Return) and ast.unparse(ifs[0].body[0].value) in ("('c1', 's1', 'c0')", "['c1', 's1', 'c0']")
+            rest = [st for st in node.body if isinstance(st, ast.Return)]
+            okp = okp and len(rest) == 1 and ast.unparse(rest[0].value).replace(" ", "") in ("super().angmom_components_sph",)
+            R.check(okp, "PYSCF", f.site, "p-shell order override", "PySCF lists spherical p functions as x, y, z = (c1, s1, c0) and every other l in the "
+                    "default order: the override must apply to l = 1 only and fall back to the base class otherwise", where=f.where(node),
+                    expected="if self.angmom == 1: return ('c1', 's1', 'c0'); return super().angmom_components_sph",
+                    found=" / ".join(ast.unparse(st)[:60] for st in node.body if not isinstance(st, ast.Expr)))
 
 
 def run(repo, R):
+    R.rule("UNDEF", "every name read in the parsers, make_contractions and from_pyscf is bound on every path that reaches the read")
+    from ..pitfalls import report as _pitfalls
+    _pitfalls(repo, R, ["gbasis.parsers", "gbasis.wrappers"], rule="UNDEF", kinds=("UNDEF",), only=lambda f_: "from_iodata" not in f_.qualname)
     R.rule("P1", "re.split with g capture groups is consumed with stride g+1, each record field once, from the first match")
     R.rule("P2", "the segment before the first element is dropped unconditionally and the element pattern can match at offset 0")
     R.rule("P3", "number tokens admit 0-9 . D E + -; every float() argument went through .lower().replace('d','e'); one row pattern")
